@@ -150,6 +150,20 @@ func hasBreak(s ast.Stmt) bool {
 	return false
 }
 
+// hasContinue reports whether s contains an unlabelled continue referring to the enclosing loop
+func hasContinue(s ast.Stmt) (has bool) {
+	ast.Inspect(s, func(n ast.Node) bool {
+		switch n := n.(type) {
+		case *ast.ForStmt, *ast.RangeStmt, *ast.FuncLit:
+			return n == s
+		case *ast.BranchStmt:
+			has = has || n.Tok == token.CONTINUE && n.Label == nil
+		}
+		return !has
+	})
+	return
+}
+
 func hasBreakList(list []ast.Stmt) bool {
 	for _, s := range list {
 		if hasBreak(s) {
